@@ -110,7 +110,15 @@ def run_driver(ctx, cases, name, timeout=3000):
     tf = os.path.join(ctx.out, name + "_trace.ndjson")
     res = ctx.go_test("disp", run="^TestDispatch$", timeout=timeout, expect_ok=False,
                       env=dict(VERIF_DISP_CASES=cf, VERIF_DISP_TRACE=tf))
-    events = ctx.read_ndjson(tf) if os.path.exists(tf) else []
+    events = []
+    if os.path.exists(tf):
+        raw = [x for x in open(tf, errors="replace").read().split("\n") if x.strip()]
+        for k, x in enumerate(raw):
+            try:
+                events.append(json.loads(x))
+            except ValueError:
+                if k != len(raw) - 1 or res["rc"] == 0:      # only a killed driver may leave a cut last line
+                    raise Machinery("unreadable line %d in the driver trace %s" % (k + 1, tf))
     crashed = None
     if res["rc"] != 0:
         prog = []
